@@ -276,6 +276,26 @@ func runCase(c c01Case) (f *vh.Failure) {
 					return vh.Failf("C01/cancelled-flush-succeeds", "message %d: QueuePackage / SendPackage with a cancelled context all returned nil", mi)
 				}
 				vh.Label("aborted-message-without-flush")
+			} else if mi%2 == 1 || m.RxAfter > 0 {
+				// the packages are queued while the context is still live (full packets may go
+				// out), the context ends before the flush: the flush reports it, writes nothing
+				// more, and leaves nothing behind - the rest of the message is given up
+				for i, p := range pkgs {
+					if err := ch.QueuePackage(ctx, p); err != nil {
+						return vh.Failf("C01/send-error", "message %d package %d: %v", mi, i, err)
+					}
+				}
+				before := len(pipe.Written())
+				if err := ch.SendRemainingPackets(cctx); err == nil {
+					return vh.Failf("C01/cancelled-flush-succeeds", "message %d: SendRemainingPackets with a cancelled context returned nil", mi)
+				}
+				if n := len(pipe.Written()) - before; n != 0 {
+					return vh.Failf("C01/cancelled-flush-writes", "message %d: the flush with a cancelled context wrote %d bytes", mi, n)
+				}
+				// what went out before the flush is an unfinished message; the next one starts behind it
+				off = len(pipe.Written())
+				nw = len(pipe.WriteLens())
+				vh.Label("aborted-message:only-the-flush-cancelled")
 			} else {
 				for _, p := range pkgs {
 					if qerr = ch.QueuePackage(cctx, p); qerr != nil {
